@@ -122,6 +122,106 @@ struct V1Pbt {
     edit: EditSel,
 }
 
+/// span length of a generated length fault: bytes, or a multiple of a structural unit
+#[derive(Debug, Clone, Serialize, Deserialize)]
+enum LenSel {
+    Bytes(u32),
+    /// k units of 0 = record, 1 = TOC entry, 2 = page
+    Units(u32, u8),
+}
+
+#[derive(Debug, Clone, Serialize, Deserialize)]
+struct AidxLenPbt {
+    art: String,
+    sel: u32,
+    n: LenSel,
+    /// snap the position down to a record boundary (data pages) / TOC entry boundary
+    align: bool,
+    insert: bool,
+    copy_neighbour: bool,
+}
+
+/// (record size, page size, pages, toc entry size) of an archive-index artifact
+fn aidx_geometry(name: &str) -> Option<(usize, usize, usize, usize, usize)> {
+    let a = art::get(name).ok()?;
+    let Art::Aidx(a) = &*a else { return None };
+    let f = &a.bytes[a.bytes.len() - 28..];
+    let rec = usize::from(f[12]) + usize::from(f[13]) + usize::from(f[14]);
+    let page = usize::from(f[11]) * 1024;
+    let toc = usize::from(f[14]) + usize::from(f[15]);
+    if rec == 0 || page == 0 {
+        return None;
+    }
+    let pages = (a.bytes.len() - 28) / (page + toc);
+    Some((rec, page, pages, toc, a.bytes.len() - 28))
+}
+
+impl AidxLenPbt {
+    fn resolve(&self) -> AidxLenCase {
+        let Some((rec, page, pages, toc, body)) = aidx_geometry(&self.art) else {
+            return AidxLenCase { art: self.art.clone(), pos: 0, n: 1, insert: self.insert, copy_neighbour: false };
+        };
+        let mut pos = pick32(self.sel, body + 1);
+        if self.align {
+            if pos < pages * page {
+                pos -= pos % page % rec;
+            } else {
+                pos -= (pos - pages * page) % toc;
+            }
+        }
+        let n = match self.n {
+            LenSel::Bytes(n) => n as usize,
+            LenSel::Units(k, u) => k as usize * [rec, toc, page][usize::from(u) % 3],
+        };
+        AidxLenCase { art: self.art.clone(), pos: pos as u32, n: n as u32, insert: self.insert, copy_neighbour: self.copy_neighbour }
+    }
+}
+
+fn aidx_len_grid(name: &'static str) -> Vec<AidxLenCase> {
+    let Some((rec, page, pages, toc, body)) = aidx_geometry(name) else { return Vec::new() };
+    let a = art::get(name).ok();
+    let count = match a.as_deref() {
+        Some(Art::Aidx(a)) => {
+            let f = &a.bytes[a.bytes.len() - 28..];
+            u32::from_le_bytes([f[16], f[17], f[18], f[19]]) as usize
+        }
+        _ => 0,
+    };
+    let per_page = page / rec;
+    let mut pos = Vec::new();
+    for p in 0..pages.min(3).max(if pages > 0 { 1 } else { 0 }) {
+        // first pages and (below) the last page
+        for pg in [p, pages - 1 - p] {
+            let used = if pg == pages - 1 { count - per_page * (pages - 1) } else { per_page };
+            let base = pg * page;
+            for r in (0..used.min(8)).chain(used.saturating_sub(8)..=used) {
+                pos.push(base + r * rec);
+            }
+            pos.push(base + rec / 2); // inside a record
+            pos.push(base + used * rec + (page - used * rec) / 2); // padding (or page end)
+            pos.push(base + page - 1);
+        }
+    }
+    for t in 0..pages.min(4) {
+        pos.push(pages * page + t * toc);
+        pos.push(pages * page + (pages - 1 - t) * toc);
+    }
+    pos.push(pages * page + pages * toc / 2 + 3);
+    pos.push(body);
+    pos.sort_unstable();
+    pos.dedup();
+    let spans = [1, 8, rec, 2 * rec, 3 * rec, toc, page];
+    let mut v = Vec::new();
+    for &p in &pos {
+        for &n in &spans {
+            v.push(AidxLenCase { art: name.into(), pos: p as u32, n: n as u32, insert: false, copy_neighbour: false });
+            v.push(AidxLenCase { art: name.into(), pos: p as u32, n: n as u32, insert: true, copy_neighbour: false });
+            v.push(AidxLenCase { art: name.into(), pos: p as u32, n: n as u32, insert: true, copy_neighbour: true });
+        }
+    }
+    v
+}
+
 fn names(v: &[&'static str]) -> impl Strategy<Value = String> + use<> {
     // an empty list (all artifacts of a kind failed their self-check: infrastructure trouble
     // already reported) still needs a value; the placeholder makes every case vacuous
@@ -373,6 +473,37 @@ fn main() {
                 tier.pick(4000, 400_000),
                 move || (names(&a2), edit::strat::edits(true), proptest::bool::weighted(0.2)).prop_map(|(art, edit, chunked)| (ArtPbt { art, edit }, chunked)).boxed(),
                 |c: &(ArtPbt, bool)| check_aidx(&AidxCase { art: c.0.art.clone(), edit: c.0.edit.resolve(20), chunked: c.1 }),
+            )
+            .shards(16),
+        );
+    }
+
+    // ------------------------------------------ archive index: length vs footer
+    {
+        let arts: Vec<&'static str> = art::AIDX_BUILT.into_iter().chain(art::AIDX_FIXTURES).filter(|n| ok(n)).collect();
+        let a2 = arts.clone();
+        ck.run(
+            Section::enumerate(
+                "aidx-length",
+                "exhaustive over a grid: spans of 1, 8, one, two and three records, one TOC entry and one page removed from / inserted (zeros or a copy of the preceding bytes) into the data pages and the table of contents of the same 7 indices — at every record boundary of the first 8 and last 8 records of every page's used part, inside a record, in the zero padding and at every TOC entry — with the footer byte-identical (valid hash): the checksummed footer fields fix the file length, ArchiveIndex::parse must refuse (validate_file_size)",
+                move || {
+                    let arts = arts.clone();
+                    Box::new(arts.into_iter().flat_map(|n| aidx_len_grid(n).into_iter()))
+                },
+                check_aidx_len,
+            )
+            .shards(16),
+        );
+        ck.run(
+            Section::pbt(
+                "aidx-length-random",
+                tier.pick(3000, 300_000),
+                move || {
+                    (names(&a2), any::<u32>(), prop_oneof![3 => (1u32..=64).prop_map(LenSel::Bytes), 4 => (1u32..=6, 0u8..3).prop_map(|(k, u)| LenSel::Units(k, u)), 1 => (1u32..5000).prop_map(LenSel::Bytes)], any::<bool>(), any::<bool>(), any::<bool>())
+                        .prop_map(|(art, sel, n, align, insert, copy_neighbour)| AidxLenPbt { art, sel, n, align, insert, copy_neighbour })
+                        .boxed()
+                },
+                |c: &AidxLenPbt| check_aidx_len(&c.resolve()),
             )
             .shards(16),
         );
